@@ -6,4 +6,5 @@ pub mod info;
 pub mod line;
 pub mod lists;
 pub mod mutate;
+pub mod seeds;
 pub mod wr;
